@@ -103,6 +103,34 @@ func c13Structs(c *enumx.Ctx) {
 		{Type: rule.InterFieldFilterType, LHS: "", Comparator: "=", RHS: ""}, {Type: rule.InterFieldFilterType, LHS: "pid", Comparator: "=", RHS: "ppid"}, {Type: rule.InterFieldFilterType, LHS: "uid", Comparator: "=", RHS: "uid"},
 		{Type: 0, LHS: "uid", Comparator: "=", RHS: "0"}, {Type: 99, LHS: "uid", Comparator: "=", RHS: "0"}, {Type: 0}, {Type: rule.ValueFilterType, LHS: "obj_lev_high", Comparator: "!=", RHS: ""}, {Type: rule.ValueFilterType, LHS: "success", Comparator: "=", RHS: "yes"},
 	}
+	// every field that takes a NAME or a number: every string of <=4 characters over the punctuation such parsers
+	// look for ([ ] - + 0 x E U , :), plus long and odd words
+	var odd []string
+	var build func(cur string, n int)
+	build = func(cur string, n int) {
+		if cur != "" {
+			odd = append(odd, cur)
+		}
+		if n == 4 {
+			return
+		}
+		for _, ch := range []string{"[", "]", "-", "1", "U", "x", ","} {
+			build(cur+ch, n+1)
+		}
+	}
+	build("", 0)
+	odd = append(odd, "UNKNOWN[", "]UNKNOWN[", "a]b[1329]", "UNKNOWN[1329", "UNKNOWN]1329[", "UNKNOWN[[1]]", "UNKNOWN[-1]", "UNKNOWN[99999999999999999999]", "-E", "-EPERM-", "E", "--1", "0x", "0x-1", "+-1")
+	for _, fld := range []string{"msgtype", "exit", "arch", "filetype", "uid", "a0", "perm", "success"} {
+		for _, v := range odd {
+			for _, l := range []string{"exit", "user", "exclude"} {
+				if !c.Mine() {
+					continue
+				}
+				f := rule.FilterSpec{Type: rule.ValueFilterType, LHS: fld, Comparator: "=", RHS: v}
+				checkBuildTotal(c, fmt.Sprintf("SyscallRule{%q,always,%s=%q}", l, fld, v), &rule.SyscallRule{Type: rule.AppendSyscallRuleType, List: l, Action: "always", Filters: []rule.FilterSpec{f}}, 64)
+			}
+		}
+	}
 	syscalls := []string{"", "0", "open", "all", "2047", "2048", "2049", "2079", "2080", "4095", "65535", "-1", "2147483647", "2147483648", "4294967295", "4294967296", "4294967328", "9223372036854775807", "9223372036854775808", "nosuch", "1e3", " 1", "0x10"}
 	// single filter / single syscall on every list x action
 	for _, l := range lists {
@@ -452,6 +480,34 @@ func c13Lines(c *enumx.Ctx) {
 		}
 	}
 	rec(nil)
+	// LONG words of every byte class (ASCII, UTF-8 lead bytes, continuation bytes, NUL, 0xff, 2-4 byte runes) of
+	// lengths around limits that error messages, buffers and tables have (79 .. 65536), in every position where a
+	// word can be rejected or accepted
+	parse := func(line string) {
+		c.Begin(func() string { return "flags.Parse(" + strconv.Quote(trunc(line)) + ")" })
+		c.Try("C13 flags.Parse", func() {
+			r, err := flags.Parse(line)
+			if (r == nil) == (err == nil) {
+				c.Report("C13 parse-value-xor-error", fmt.Sprintf("flags.Parse(%q) = (%v, %v)", trunc(line), r, err), nil)
+				return
+			}
+			if err == nil {
+				checkBuildTotalInline(c, line, r)
+			}
+			c.Nontrivial()
+		})
+	}
+	for _, unit := range []string{"a", "\x80", "\xbf", "\xc3", "\xe2\x82", "\xf0", "\xff", "\u00e9", "\u20ac", "\U0001f600", "=", ",", "-", "[", "/"} {
+		for _, n := range []int{63, 64, 65, 79, 80, 81, 82, 127, 128, 129, 255, 256, 257, 1023, 1024, 1025, 4095, 4096, 4097, 65535, 65536} {
+			if !c.Mine() {
+				continue
+			}
+			w := strings.Repeat(unit, (n+len(unit)-1)/len(unit))[:n]
+			for _, line := range []string{w, "-a always,exit " + w, "-a " + w, "-a always,exit -F " + w, "-a always,exit -F uid=" + w, "-a always,exit -F " + w + "=1", "-a always,exit -C " + w, "-a always,exit -S " + w, "-w " + w + " -p wa", "-w /x -p " + w, "-w /x -k " + w, "-D -k " + w, "-" + w} {
+				parse(line)
+			}
+		}
+	}
 }
 
 func checkBuildTotalInline(c *enumx.Ctx, line string, r rule.Rule) {
